@@ -160,9 +160,12 @@ def run(ctx):
                 ctx.report('boots-decrypt-wrong', '%d-bit set: a ciphertext of bit %d with phase error %d units (|e| < 2^29 = 1/8) decrypts to %d' % (lam, bit, e, d), {'case': l[:10000], 'kind': 'gate ciphertext', 'message': bit, 'decrypted': d, 'expected': bit})
             if ints(m)[0] != d: ctx.soft('correspondence:decrypt-bit', 'bootsSymDecrypt differs from the model decrypt_bit (phase error %d)' % e, {'case': l[:10000]})
     ctx.hypotheses['largest |error| / decision threshold seen on fresh ciphertexts'] = round(worst, 4)
+    # allocation failures inside a TLWE decryption: reported or harmless, never a silent wrong message
+    vlib.allocfail_block(ctx, [(9, 1024, k, 2, 8) for k in (1, 2)])
     ctx.sample({'Msizes': Ms, 'dimensions': ns, 'worst_error_over_threshold': round(worst, 4)})
 
 def replay(ctx, data):
+    if data.get('tool') == 'allocfail': return vlib.allocfail_replay(data)
     exe = vlib.build_harness('enc_drv.cpp', vlib.build_lib('optim'), 'spqlios-fma', 'optim')
     if 'sequence' in data:
         drv = vlib.build_harness('boot_drv.cpp', vlib.build_lib('optim'), 'spqlios-fma', 'optim') if data['sequence'][0].startswith('tgsw') else exe
